@@ -20,11 +20,12 @@ Lemma do_send_shape e w :
   (exists w', do_send e w = (None, w'))
   \/ (exists z w', do_send e w = (Some (XDisc z), w'))
   \/ (exists w', do_send e w = (Some XValue, w'))
-  \/ (exists w', do_send e w = (Some XOther, w')).
+  \/ (exists w', do_send e w = (Some XOther, w'))
+  \/ (exists w', do_send e w = (Some XInvalidCode, w')).
 Proof.
   unfold do_send. destruct (flag w); cbn; [right; left; eauto|].
   destruct (st w); cbn; try (right; left; eauto; fail);
-    (destruct (fails w) as [|k fa]; cbn; [left; eauto|]; destruct k; eauto 8).
+    (destruct (fails w) as [|k fa]; cbn; [left; eauto|]; destruct k; eauto 10).
 Qed.
 
 Lemma do_send_closed e w : is_closed w = true -> st w <> Handshake ->
@@ -74,7 +75,7 @@ Proof.
         try (destruct (hdrs_ok c); cbn; try reflexivity);
         match goal with
         | |- context [do_send ?e w] =>
-          destruct (do_send_shape e w) as [[w' ->]|[[z [w' ->]]|[[w' ->]|[w' ->]]]]; reflexivity
+          destruct (do_send_shape e w) as [[w' ->]|[[z [w' ->]]|[[w' ->]|[[w' ->]|[w' ->]]]]]; reflexivity
         end.
     + destruct (is_closed w); reflexivity.
     + destruct (is_closed w); reflexivity.
@@ -86,7 +87,7 @@ Proof.
       destruct (is_closed _); [reflexivity|].
       match goal with
       | |- context [do_send ?e ?w0] =>
-        destruct (do_send_shape e w0) as [[w' ->]|[[z [w' ->]]|[[w' ->]|[w' ->]]]]; reflexivity
+        destruct (do_send_shape e w0) as [[w' ->]|[[z [w' ->]]|[[w' ->]|[[w' ->]|[w' ->]]]]]; reflexivity
       end.
   - (* send_text *)
     unfold run_op, op_send_text, op_send, require_accepted, pub_of, misuse_ok, payload_bad.
@@ -95,7 +96,7 @@ Proof.
       * destruct p; [|reflexivity]. destruct (strish k); cbn; [|reflexivity].
         destruct (do_send_closed (EText n k) w Ec) as [z [w' ->]]; [congruence|reflexivity].
       * destruct p; [|reflexivity]. destruct (strish k); cbn; [|reflexivity].
-        destruct (do_send_shape (EText n k) w) as [[w' ->]|[[z [w' ->]]|[[w' ->]|[w' ->]]]]; reflexivity.
+        destruct (do_send_shape (EText n k) w) as [[w' ->]|[[z [w' ->]]|[[w' ->]|[[w' ->]|[w' ->]]]]]; reflexivity.
     + unfold is_closed. rewrite Est. destruct p; [destruct (strish k)|]; reflexivity.
   - unfold run_op, op_send_data, op_send, require_accepted, pub_of, misuse_ok, payload_bad.
     destruct (st w) eqn:Est; cbn; try reflexivity.
@@ -103,7 +104,7 @@ Proof.
       * destruct p; [|reflexivity].
         destruct (do_send_closed (EBytes n KExact) w Ec) as [z [w' ->]]; [congruence|reflexivity].
       * destruct p; [|reflexivity].
-        destruct (do_send_shape (EBytes n KExact) w) as [[w' ->]|[[z [w' ->]]|[[w' ->]|[w' ->]]]]; reflexivity.
+        destruct (do_send_shape (EBytes n KExact) w) as [[w' ->]|[[z [w' ->]]|[[w' ->]|[[w' ->]|[w' ->]]]]]; reflexivity.
     + unfold is_closed. rewrite Est. destruct p; reflexivity.
   - unfold run_op, op_send_media, op_send, require_accepted, pub_of, misuse_ok.
     destruct (st w) eqn:Est; cbn; try reflexivity.
@@ -111,7 +112,7 @@ Proof.
       * destruct (do_send_closed (if bin then EBytes n KExact else EText n KExact) w Ec) as [z [w' ->]];
           [congruence|reflexivity].
       * destruct (do_send_shape (if bin then EBytes n KExact else EText n KExact) w)
-          as [[w' ->]|[[z [w' ->]]|[[w' ->]|[w' ->]]]]; reflexivity.
+          as [[w' ->]|[[z [w' ->]]|[[w' ->]|[[w' ->]|[w' ->]]]]]; reflexivity.
     + unfold is_closed. rewrite Est. reflexivity.
   - destruct (op_recv_table 0 c w) as [A B]. unfold run_op, misuse_ok, pub_of. rewrite A. cbn.
     destruct (st w) eqn:Est; [rewrite (B eq_refl); reflexivity | |]; destruct (is_closed w); reflexivity.
@@ -265,7 +266,7 @@ Proof.
     destruct (op_close f hr c (CInt (err_code c)) false w) as [r w1] eqn:E1.
     pose proof (op_close_ext _ _ _ _ _ _ _ _ E1) as X1.
     destruct r; try (injection H as <- <-; exact X1).
-    destruct (code_check (CInt (err_code c))); [injection H as <- <-; exact X1|].
+    destruct (mentions_invalid_code c x0); [|injection H as <- <-; exact X1].
     destruct (op_close f hr c (CInt fallback_ws_error_code) false w1) as [r2 w2] eqn:E2.
     pose proof (op_close_ext _ _ _ _ _ _ _ _ E2) as X2.
     destruct r2; injection H as <- <-; eapply ext_trans; eauto. }
@@ -504,7 +505,8 @@ Proof.
   unfold session, run_script, run_op, raise_exc, handle_exception, cleanup. cbn [negb].
   destruct (valid_code (err_code c)) eqn:Hv.
   - rewrite (close_valid_fresh _ _ _ _ Hv). cbn. auto.
-  - unfold op_close at 1. rewrite !(code_check_invalid _ Hv). cbn. auto.
+  - unfold op_close at 1. rewrite !(code_check_invalid _ Hv).
+    cbn -[op_close code_check valid_code]. rewrite !(code_check_invalid _ Hv). cbn. auto.
 Qed.
 
 (* the code as found: the server raises on the final websocket.close (connection lost) and
@@ -563,10 +565,12 @@ Proof.
   - unfold op_accept; cbn -[op_close code_check valid_code].
     destruct (valid_code (err_code c)) eqn:Hv.
     + unfold op_close. rewrite (code_check_valid _ Hv). cbn. repeat split; eauto.
-    + unfold op_close at 1. rewrite !(code_check_invalid _ Hv). cbn. repeat split; eauto.
+    + unfold op_close at 1. rewrite !(code_check_invalid _ Hv).
+      cbn -[op_close code_check valid_code]. rewrite ?(code_check_invalid _ Hv). cbn. repeat split; eauto.
   - destruct (valid_code (err_code c)) eqn:Hv.
     + rewrite (close_valid_fresh _ _ _ _ Hv). cbn. repeat split; eauto.
-    + unfold op_close at 1. rewrite !(code_check_invalid _ Hv). cbn. repeat split; eauto.
+    + unfold op_close at 1. rewrite !(code_check_invalid _ Hv).
+      cbn -[op_close code_check valid_code]. rewrite ?(code_check_invalid _ Hv). cbn. repeat split; eauto.
 Qed.
 
 (* the shape of an incoming event (unused key absent or None; disconnect with or without a
@@ -582,4 +586,16 @@ Lemma op_recv_value f k c w e w1 :
   op_recv f k c w = (recv_value k e, w1).
 Proof.
   intros Hr Hd. unfold op_recv. rewrite Hr, Hd. destruct k as [|[|k]]; reflexivity.
+Qed.
+
+(* a payload of the wrong type is rejected before anything happens: TypeError in the ready
+   state and no send() call, no state change *)
+Lemma bad_payload_sends_nothing f hr c o w r w' :
+  payload_bad o = true -> run_op f hr c o w = (r, w') -> w' = w.
+Proof.
+  destruct o; try discriminate; destruct p as [n k|]; cbn; try discriminate.
+  - intros Hk. apply negb_true_iff in Hk. unfold op_send_text. rewrite Hk.
+    destruct (require_accepted w); intro H; injection H as _ <-; reflexivity.
+  - intros _. unfold op_send_text. destruct (require_accepted w); intro H; injection H as _ <-; reflexivity.
+  - intros _. unfold op_send_data. destruct (require_accepted w); intro H; injection H as _ <-; reflexivity.
 Qed.
